@@ -29,22 +29,24 @@ open Desper Desper.Loop
 initial segment of the frame's processors was called, and once the request is served the next
 frame's `process` goes to the world the current handle yields (the requested handle, unless a
 callback released on entry requested another switch), with the delta measured from this frame's
-reading. -/
+reading (`r` is the reading of the installed time function). -/
 theorem C13_abandon (U : Universe) (fuel : Nat) (s s1 : St) (f : Frame) (i : Inst) (h : Handle)
     (cc cn : Bool) (wf : WF s) (hcur : s.current = some i)
-    (hp : processWorld U fuel { s with last := some f.reading } i (dtOf s.last f.reading) f.acts
-      = (s1, .raised (.switch h cc cn))) :
+    (hp : processWorld U fuel (tickSt s (readingOf s.clock f)) i
+      (dtOf s.last (readingOf s.clock f)) f.acts = (s1, .raised (.switch h cc cn))) :
     loopStep U fuel s f = handleSwitch U fuel fuel s1 h cc cn ∧
-    (∃ ext m, s1.log = ext ++ .frame i (dtOf s.last f.reading) :: s.log ∧
+    (∃ ext m, s1.log = ext ++ .frame i (dtOf s.last (readingOf s.clock f)) ::
+        .tick (readingOf s.clock f) :: s.log ∧
       procIdx ext = List.range m ∧ 0 < m ∧ m ≤ (U.procs i.h).length) ∧
     (∀ s2, handleSwitch U fuel fuel s1 h cc cn = (s2, .ok) →
-      s2.last = some f.reading ∧
+      s2.last = some (readingOf s.clock f) ∧
       ∃ h' n, s2.currentHandle = some h' ∧ s2.cache h' = some n ∧ s2.current = some ⟨h', n⟩ ∧
         ∀ f' : Frame, ∃ ext', (loopStep U fuel s2 f').1.log
-          = ext' ++ .frame ⟨h', n⟩ (f'.reading - f.reading) :: s2.log) ∧
+          = ext' ++ .frame ⟨h', n⟩ (readingOf s2.clock f' - readingOf s.clock f) ::
+              .tick (readingOf s2.clock f') :: s2.log) ∧
     (∀ s2, simpleSwitch U fuel s1 h cc cn = (s2, .ok) → s2.currentHandle = some h) := by
-  have wf0 : WF { s with last := some f.reading } := ⟨wf.fresh, wf.cached, wf.cur⟩
-  obtain ⟨wf1, e1⟩ := processWorld_spec U fuel wf0 hp
+  have wf0 := tickSt_wf (readingOf s.clock f) wf
+  obtain ⟨wf1, _, sc1, _⟩ := processWorld_step U fuel wf0 hcur hp
   have hstep : loopStep U fuel s f = handleSwitch U fuel fuel s1 h cc cn := by
     unfold loopStep
     simp only
@@ -53,11 +55,11 @@ theorem C13_abandon (U : Universe) (fuel : Nat) (s s1 : St) (f : Frame) (i : Ins
     · rename_i j hj; rw [hcur] at hj; cases hj; rw [hp]
   refine ⟨hstep, ?_, ?_, ?_⟩
   · obtain ⟨ext, m, h1, h2, h3, _, h5, _⟩ := processWorld_log U fuel wf0 hp
-    exact ⟨ext, m, h1, h2, h5 (by simp), h3⟩
+    exact ⟨ext, m, by simpa [tickSt] using h1, h2, h5 (by simp), h3⟩
   · intro s2 hs
     obtain ⟨wf2, _, sc2, _⟩ := handleSwitch_spec U fuel fuel _ _ _ _ _ _ wf1 hs
     obtain ⟨h', n, a, b, c⟩ := handleSwitch_ok U fuel fuel _ _ _ _ _ wf1 hs
-    have hlast : s2.last = some f.reading := by rw [sc2.last, e1.last]
+    have hlast : s2.last = some (readingOf s.clock f) := by rw [sc2.last, sc1.last]; rfl
     refine ⟨hlast, h', n, a, b, c, ?_⟩
     intro f'
     cases hl : loopStep U fuel s2 f' with
@@ -70,8 +72,36 @@ theorem C13_abandon (U : Universe) (fuel : Nat) (s s1 : St) (f : Frame) (i : Ins
   · intro s2 hs
     exact (simpleSwitch_ok U fuel wf1 hs).1
 
-example : (processWorld Ex.U 10 { Ex.s0 with last := some 8 } ⟨0, 1⟩ (dtOf Ex.s0.last 8)
-    [.switch 1 false false, .none]).2 = .raised (.switch 1 false false) := by decide
+example : (processWorld Ex.U 10 (tickSt Ex.s0 8) ⟨0, 1⟩ (dtOf Ex.s0.last 8)
+    [.user (.switch 1 false false), .user .none]).2 = .raised (.switch 1 false false) := by decide
+
+/-- The public method called directly: `loop.switch(h, cc, cn)` from a processor in the middle of
+a frame raises nothing, so nothing is abandoned (the texts say "switch() or raising SwitchWorld"
+for that) — the remaining processors of the frame still run — but the loop's current world is from
+then on what the handle yields, it has been entered (its held callbacks released, `enter` marker),
+and the NEXT iteration calls `process` of that world, not of the world whose frame it was. -/
+theorem C13_direct_switch (U : Universe) (fuel : Nat) (s s1 : St) (h : Handle) (cc cn : Bool)
+    (wf : WF s) (hp : pact U fuel s (.loopSwitch h cc cn) = (s1, .ok)) :
+    s1.currentHandle = some h ∧
+    ∃ n, s1.cache h = some n ∧ s1.current = some ⟨h, n⟩ ∧
+      (∃ ext, s1.log = ext ++ s.log ∧ ∀ e ∈ ext, SwP e) ∧ s1.last = s.last ∧
+      ∀ f' : Frame, ∃ ext', (loopStep U fuel s1 f').1.log
+        = ext' ++ .frame ⟨h, n⟩ (dtOf s.last (readingOf s1.clock f')) ::
+            .tick (readingOf s1.clock f') :: s1.log := by
+  simp only [pact] at hp
+  obtain ⟨wf1, ⟨ext, hl, hP, _⟩, sc1, _⟩ := simpleSwitch_spec U fuel wf hp
+  obtain ⟨hch, n, hcache, hcur⟩ := simpleSwitch_ok U fuel wf hp
+  refine ⟨hch, n, hcache, hcur, ⟨ext, hl, hP⟩, sc1.last, ?_⟩
+  intro f'
+  cases hl' : loopStep U fuel s1 f' with
+  | mk s3 o3 =>
+    obtain ⟨_, htr⟩ := loopStep_trace U fuel wf1 hl'
+    rcases htr with ⟨hn, _⟩ | ⟨j, ext1, ext2, m, hj, hlog, _⟩
+    · rw [hcur] at hn; cases hn
+    · rw [hcur] at hj; cases hj
+      exact ⟨ext2 ++ ext1, by simp [hlog, sc1.last]⟩
+
+example : (pact Ex.U 10 Ex.s0 (.loopSwitch 1 false false)).2 = .ok := by decide
 
 /-- `switch(h, cc, cn)` requested while world `frm` runs, with an on_switch_out callback that returns
 normally: on_switch_out(frm, to) is delivered exactly once, in `frm`, with the instance `to` that
